@@ -68,8 +68,17 @@ func c01Specs(tier string) []*Spec {
 		specs = append(specs, &Spec{ID: "C01", Name: name, Cfg: cfg, Keys: keysA, Vals: bs("x"), MaxDepth: depth, MaxMaint: 2, Weight: 8,
 			Alphabet: a.Ops, Oracles: []Oracle{oracleReads(pr)}})
 	}
+	// idempotent re-commits of an existing version (load an older version, replay, SaveVersion succeeds without effect)
+	addResave := func(name string, cfg Cfg, depth int) {
+		keys := bs("a")
+		pr := probesFor(keys)
+		a := Alpha{Writes: true, Save: true, LoadVersion: true, Rollback: true, MaxVersions: 3}
+		specs = append(specs, &Spec{ID: "C01", Name: name, Cfg: cfg, Keys: keys, Vals: bs("x", "y"), MaxDepth: depth, MaxMaint: 1, Weight: 8,
+			Alphabet: a.Ops, Oracles: []Oracle{oracleReads(pr)}})
+	}
 	vals := bs("x", "")
 	if tier == "quick" {
+		addResave("resave/1key/d9", defaultCfg, 9)
 		addHold("hold/default/d6", defaultCfg, 6)
 		addHold("hold/cache1000-nofast/d6", Cfg{Fast: false, Cache: 1000}, 6)
 		addNarrow("cache1000/1key-narrow/d8", Cfg{Fast: true, Cache: 1000}, 8)
@@ -87,6 +96,7 @@ func c01Specs(tier string) []*Spec {
 		return specs
 	}
 	add("default/a-ab-b/d7", defaultCfg, keysA, vals, 7, 2)
+	addResave("resave/1key/d11", defaultCfg, 11)
 	addHold("hold/default/d7", defaultCfg, 7)
 	addHold("hold/cache1000-nofast/d6", Cfg{Fast: false, Cache: 1000}, 6)
 	addHold("hold/cache3/d6", Cfg{Fast: true, Cache: 3}, 6)
